@@ -103,4 +103,30 @@ theorem getWait_bound (now : Nat) (c : Conn) (h1 : c.la ≤ now) (h2 : now < 2 ^
     · have a' : ¬ (c.tmo < c.tmo) := by omega
       simp [e, a']; omega
     · simp [a, e]; omega
+
+/-- Exactness of the close decision when the clock may be up to `jumpBackLimit` behind the stamp
+    (a small backward jump): closed iff not suspended, a timeout is set and the idle time measured
+    on the clock, `now - la` (0 when the clock is behind the stamp), exceeds it. -/
+theorem checkTimedOut_iff_jump (now : Nat) (c : Conn) (h1 : c.la ≤ now + jumpBackLimit) (h2 : now < 2 ^ 62)
+    (ht : c.tmo < 2 ^ 63) :
+    checkTimedOut now c = true ↔ c.suspended = false ∧ c.tmo ≠ 0 ∧ c.tmo < now - c.la := by
+  by_cases hle : c.la ≤ now
+  · exact checkTimedOut_iff now c hle (by omega)
+  · have hlt : now < c.la := by omega
+    have hla : c.la < W := by simp only [W, jumpBackLimit] at *; omega
+    rw [checkTimedOut_jumpBack now c hlt (by omega) hla ht]
+    have : now - c.la = 0 := by omega
+    simp [this]
+
+/-- The wait under the same hypothesis: never more than the time left to the deadline plus the
+    granularity, and 0 once the deadline has passed. -/
+theorem getWait_bound_jump (now : Nat) (c : Conn) (h1 : c.la ≤ now + jumpBackLimit) (h2 : now < 2 ^ 62)
+    (ht : c.tmo < 2 ^ 63) :
+    getWait now c ≤ (c.la + c.tmo - now) + granularity ∧ (c.la + c.tmo < now → getWait now c = 0) := by
+  by_cases hle : c.la ≤ now
+  · have := getWait_bound now c hle (by omega); exact ⟨this.1, this.2.1⟩
+  · have hlt : now < c.la := by omega
+    have hla : c.la < W := by simp only [W, jumpBackLimit] at *; omega
+    rw [getWait_jumpBack now c hlt (by omega) hla ht]
+    exact ⟨by omega, fun h => by omega⟩
 end Mhd.Tmo
